@@ -77,6 +77,44 @@ def spec_graph(mol):
     return nodes, static, other
 
 
+def _same_dump(a, b):
+    (n1, e1), (n2, e2) = a, b
+    if len(n1) != len(n2) or len(e1) != len(e2):
+        return False
+    for x, y in zip(n1, n2):
+        if x[:4] != y[:4] or (x[4] is None) != (y[4] is None) or (x[4] is not None and not (close(x[4], y[4]) and close(x[5], y[5]))):
+            return False
+    for x, y in zip(sorted(e1), sorted(e2)):
+        if x[:3] != y[:3] or not all(close(p, q) for p, q in zip(x[3:], y[3:])):
+            return False
+    return True
+
+
+def history_cases(ck, case, with_dist, nodes, edges):
+    """the graph is a function of the molecule as it is now, not of what was asked of the object before: a second call gives the same graph,
+    and the graph of the mirror image (made AFTER a graph call on the original, same mode) is the graph of the freshly parsed text of the mirror"""
+    import gbigsmiles
+    inp = {"text": case.text, "with_distribution": with_dist}
+    with warnings.catch_warnings():
+        warnings.simplefilter("ignore")
+        try:
+            again = sagadapt.sag_dump(case.mol.gen_stochastic_atom_graph(with_dist).graph)
+            if not _same_dump((nodes, edges), again):
+                ck.fail("graph-depends-on-call-history", inp, "a second gen_stochastic_atom_graph() call on the same object gives another graph")
+            mir = case.mol.gen_mirror()
+            gm = sagadapt.sag_dump(mir.gen_stochastic_atom_graph(with_dist).graph)
+            fresh = gbigsmiles.Molecule(str(mir))
+            gf = sagadapt.sag_dump(fresh.gen_stochastic_atom_graph(with_dist).graph)
+        except Exception as exc:
+            ck.note(f"mirror / graph raised {type(exc).__name__}: {exc} on {case.text[:80]}")
+            return
+    ck.count("mirror-after-graph")
+    if not _same_dump(gm, gf):
+        ck.fail("graph-depends-on-call-history", dict(inp, mirror=str(mir)),
+                f"graph of the mirror image made after a graph call differs from the graph of its freshly parsed text: "
+                f"nodes {gm[0][:4]} vs {gf[0][:4]}; {len(gm[1])} vs {len(gf[1])} edges")
+
+
 def main():
     ck = Check("C17")
     ck.do_build()
@@ -150,6 +188,7 @@ def main():
                     break
         ops.append({"op": "SAG", "els": sagadapt.aelems_json(mol, with_dist), "dist": with_dist})
         keep.append((inp, nodes, edges))
+        history_cases(ck, case, with_dist, nodes, edges)
     outs = ck.driver.run(ops)
     for (inp, nodes, edges), out in zip(keep, outs):
         mn = sorted((n[0], n[1], n[2], n[3], None if n[4] is None else float(unfrac(n[4])), None if n[5] is None else float(unfrac(n[5]))) for n in out["nodes"])
